@@ -290,8 +290,8 @@ type sealed struct {
 type msgSource struct {
 	*msgStore
 	unit  uint64
-	leo   map[string]uint64          // real log end
-	props map[string][]sealed        // proposals in log order
+	leo   map[string]uint64   // real log end
+	props map[string][]sealed // proposals in log order
 	chain map[string]map[uint64]ch.EntryIdentity
 }
 
@@ -343,13 +343,13 @@ type rowSpan struct {
 }
 
 type chanSpan struct {
-	key        string
-	start      int // first byte of the channel block
-	hwOff      int // offset of the checkpoint's HW field
-	hw         uint64
-	metaEnd    int // first byte after the message count
-	rows       []rowSpan
-	end        int
+	key     string
+	start   int // first byte of the channel block
+	hwOff   int // offset of the checkpoint's HW field
+	hw      uint64
+	metaEnd int // first byte after the message count
+	rows    []rowSpan
+	end     int
 }
 
 type streamLayout struct {
@@ -559,11 +559,11 @@ type msgWorld struct {
 	expStats store.BackupSnapshotStats
 	layout   streamLayout
 	// knowledge about the export, taken from the source at export time
-	expHW    map[string]uint64 // real watermark of every exported channel
-	expPhys  map[string]uint64
-	expRmax  map[string]uint64
-	probes   int
-	infra    []string
+	expHW   map[string]uint64 // real watermark of every exported channel
+	expPhys map[string]uint64
+	expRmax map[string]uint64
+	probes  int
+	infra   []string
 }
 
 func (w *world) newMsgWorld(cfg map[string]any, maxLen int) (*msgWorld, error) {
